@@ -728,6 +728,18 @@ def _public(repo, rep):
                   detail=first)
 
 
+def last_any(ve):
+    """{(target text, line): statement name} for 'x = ns[NS, "name"]'"""
+    out = {}
+    for n in ast.walk(ve.node):
+        if isinstance(n, ast.Assign) and isinstance(n.value, ast.Subscript) \
+                and src(n.value.value) == "ns" and isinstance(
+                    n.value.slice, ast.Tuple) and len(n.value.slice.elts) == 2 \
+                and isinstance(n.value.slice.elts[1], ast.Constant):
+            out[(src(n.targets[0]), n.lineno)] = n.value.slice.elts[1].value
+    return out
+
+
 def element_details(repo, rep, rule="R09.3"):
     """Value-level facts of MacroProgram.visit_element that several
     properties rest on:
@@ -805,6 +817,33 @@ def element_details(repo, rep, rule="R09.3"):
               construct="multipart-complete", where=wh,
               detail="MULTIPART %s, split by their parser %s" % (
                   sorted(multipart or ()), sorted(split_stmts)))
+    # a statement value of blanks only is an empty value: the tests for an
+    # empty omit-tag / i18n:name / fill-slot clause look at the stripped text
+    blank = {}
+    for n in ast.walk(ve.node):
+        if isinstance(n, (ast.If, ast.IfExp)):
+            pt, flip = L._CanonIf._pos(n.test)
+            t_ = src(pt).replace(" ", "")
+            if t_ in ("clause", "clause.strip()", "clause==''",
+                      "clause.strip()==''", "''==clause"):
+                cands = [(ln, v) for (nm, ln), v in last_any(ve).items()
+                         if nm == "clause" and ln <= n.lineno]
+                if cands:
+                    stmt = max(cands)[1]
+                    stripped = ".strip()" in t_ or any(
+                        isinstance(a, ast.Assign) and
+                        src(a.targets[0]) == "clause" and
+                        src(a.value) == "clause.strip()" and
+                        max(cands)[0] <= a.lineno <= n.lineno
+                        for a in ast.walk(ve.node))
+                    blank[stmt] = stripped
+    want_blank = {"omit-tag", "name", "fill-slot"}
+    rep.check(want_blank <= set(blank) and all(
+        blank[k] for k in want_blank), rule, ve.qualname, "an omit-tag, "
+        "i18n:name or fill-slot value of blanks only is treated as the "
+        "empty value (tested after strip())",
+        construct="blank-clause-empty", where=wh,
+        detail=str(sorted(blank.items())))
     # use-macro: omit the element's own tag
     branch = []
     for n in ast.walk(ve.node):
